@@ -122,7 +122,10 @@ _FLOAT_BOUNDS = [(None, None), (["f", _fl(0.0)], ["f", _fl(1.0)]), (["f", _fl(-1
                  (["f", "-inf"], ["f", "inf"]), (["f", _fl(1e300)], ["f", _fl(1.7e308)]),
                  (["f", _fl(-1e-310)], ["f", _fl(1e-310)]), (["i", 1], ["f", _fl(1.0000000000000002)])]
 _SI_BOUNDS = [(None, None), (["i", 0], ["i", 5000]), (["f", _fl(0.0)], ["f", _fl(1.0)]),
-              (["i", -10], ["i", 10]), (["f", _fl(0.0)], None), (["f", _fl(60.0)], ["f", _fl(3600.0)])]
+              (["i", -10], ["i", 10]), (["f", _fl(0.0)], None), (["f", _fl(60.0)], ["f", _fl(3600.0)]),
+              # bounds that are no round binary numbers: bound / factor * factor is often not the bound again
+              (["f", _fl(0.0)], ["f", _fl(0.35)]), (["f", _fl(0.013)], ["f", _fl(0.82)]),
+              (["f", _fl(0.009)], ["f", _fl(0.7)])]
 _BAD_BOUNDS = [(["i", 5], ["i", 5]), (["i", 10], ["i", 0]), (["f", _fl(1.0)], ["f", _fl(1.0)]),
                (["f", "inf"], ["f", "-inf"]), (["f", "inf"], ["f", "inf"])]
 _OPTS = [["a", "b", "c"], ["AZ", "DE", "MD", "CA", "AK", "MD", "VA"], ["x"], [], ["", "a"], ["km", "m", "0"],
@@ -136,9 +139,9 @@ _BAD_KEYS = [["s", ""], ["s", "a.b"], ["i", 3], ["n"], ["s", "."]]
 _BAD_NAMES = [["s", ""], ["i", 3], ["n"]]
 _BAD_PRIOS = [["s", "p"], ["n"], ["l", []]]
 _SET_MODES = ["in", "in", "in", "in", "lo", "hi", "above", "below", "justabove", "justbelow", "int", "float",
-              "bool", "nan", "inf", "otherq", "wrong", "lit", "in", "hi"]
+              "bool", "nan", "inf", "otherq", "wrong", "lit", "in", "hi", "hi-unit", "lo-unit"]
 _NEW_MODES = ["in"] * 11 + ["lo", "hi", "above", "below", "justabove", "nan", "wrong", "lit", "otherq", "bool",
-                            "float", "inf"]
+                            "float", "inf", "hi-unit", "lo-unit"]
 
 
 def _hexfloats():
@@ -458,6 +461,31 @@ def _valid(node, v):
     raise ValueError(cls)
 
 
+def enumerate_cases(tier):
+    """bounded quantity parameters x every non-base unit of the oracle table x the bound expressed in that unit
+    (bound / factor and its two neighbours), through the parameter and through the model"""
+    cases = []
+    his = [0.35, 0.82, 0.7, 0.41, 0.013, 3.3, 47.0, 0.009] if tier == "quick" else \
+        [0.35, 0.82, 0.7, 0.41, 0.013, 3.3, 47.0, 0.009, 0.69, 0.018, 1.1, 0.3, 7.7, 123.4]
+    for q in QNAMES:
+        units = sorted(QUNITS[q])
+        others = [u for u in units if u != QBASE[q]]
+        for hi in his:
+            for ui in range(len(others)):
+                for variant in range(3):
+                    for mode in ("hi-unit", "lo-unit"):
+                        lo_, hi_ = (0.0, hi) if mode == "hi-unit" else (hi, 1e6)
+                        cases.append({"root": None, "ops": [
+                            {"op": "new", "cls": "quantity", "det": False, "par": 0, "deep": False, "key": ["s", "a"],
+                             "name": ["s", "n"], "prio": ["i", 1], "ro": False, "lo": ["f", _fl(lo_)],
+                             "hi": ["f", _fl(hi_)], "mode": "hi" if mode == "hi-unit" else "lo", "n": 0,
+                             "x": _fl(0.0), "q": q},
+                            {"op": "set", "any": False, "mode": mode, "n": 0,
+                             "t": 0, "via": "direct" if variant % 2 == 0 else "model", "x": _fl(0.0),
+                             "unit_index": ui, "variant": variant}]})
+    return cases
+
+
 # ------------------------------------------------------------------------------------------ value derivation
 def _irange(lo, hi):
     lo_i = None if math.isinf(lo) else math.ceil(lo)
@@ -502,6 +530,7 @@ def _num_tag(v):
 def _derive(node, op):
     """tagged value for a set/new op, steered by op['mode'] and the node's class/bounds/options."""
     mode, n = op["mode"], op["n"]
+    unit_index, variant = op.get("unit_index"), op.get("variant")
     x = float.fromhex(op["x"])
     wrong = WRONG[n % len(WRONG)]
     if mode == "lit":
@@ -575,6 +604,19 @@ def _derive(node, op):
             return ["q", node.q, _fl(lo), base]
         if mode == "hi":
             return ["q", node.q, _fl(hi), base]
+        if mode in ("hi-unit", "lo-unit"):
+            # a bound expressed in another unit (bound / factor, or one of its neighbours): whether it is inside
+            # is decided by its SI value, and value * factor need not be the bound again
+            b = hi if mode == "hi-unit" else lo
+            others = [u_ for u_ in units if u_ != base]
+            if math.isinf(b) or not others:
+                return wrong
+            u = others[(n if unit_index is None else unit_index) % len(others)]
+            v = float(b) / QUNITS[node.q][u]
+            v = [v, math.nextafter(v, INF), math.nextafter(v, -INF)][((n // 7) if variant is None else variant) % 3]
+            if math.isinf(v):
+                return wrong
+            return ["q", node.q, _fl(v), u]
         if mode == "nan":
             return ["q", node.q, "nan", units[n % len(units)]]
         if mode == "inf":
